@@ -281,3 +281,46 @@ pub fn default_params<B: Backend>() -> PwParams {
         _ => PwParams::Argon2id { mem_bytes: 19 * 1024 * 1024, time: 2, para: 1 },
     }
 }
+
+/// Same as `Raw` but with a non-empty encoding suffix: headers become `v4.x1.local.` etc.
+/// (PASETO reserves the suffix for future encodings; the library supports any `Payload::SUFFIX`.)
+#[derive(Clone, Debug, PartialEq, Eq)]
+pub struct RawS(pub Vec<u8>);
+
+impl Payload for RawS {
+    const SUFFIX: &'static str = ".x1";
+    fn encode(self, mut writer: impl WriteBytes) -> Result<(), Box<dyn std::error::Error + Send + Sync>> {
+        writer.write(&self.0);
+        Ok(())
+    }
+    fn decode(payload: &[u8]) -> Result<Self, Box<dyn std::error::Error + Send + Sync>> {
+        Ok(RawS(payload.to_vec()))
+    }
+}
+
+/// payload types that carry raw bytes (so generic checks can run under several suffixes)
+pub trait BytesPayload: Payload + Sized {
+    fn from_bytes(b: Vec<u8>) -> Self;
+    fn bytes(&self) -> &[u8];
+}
+impl BytesPayload for Raw {
+    fn from_bytes(b: Vec<u8>) -> Self {
+        Raw(b)
+    }
+    fn bytes(&self) -> &[u8] {
+        &self.0
+    }
+}
+impl BytesPayload for RawS {
+    fn from_bytes(b: Vec<u8>) -> Self {
+        RawS(b)
+    }
+    fn bytes(&self) -> &[u8] {
+        &self.0
+    }
+}
+
+/// token header text for version, payload suffix and purpose
+pub fn token_header<M: Payload>(ver: Ver, purpose: &str) -> String {
+    format!("{}{}.{purpose}.", ver.v(), M::SUFFIX)
+}
